@@ -417,6 +417,10 @@ class ValueGen:
         if it.t.kind == "int":
             lim = INT_MAX[it.t.base] + 1
             S.append((kw, it.name, f"{p}: {it.t.base} out of range", lambda: lim + r.choice([0, 5])))
+        if it.t.kind == "enum":
+            # an enum value whose ordinal does not fit the field's wire type (the override, when the field spells one)
+            lim = INT_MAX[it.t.base] + 1
+            S.append((kw, it.name, f"{p}: enum {it.t.base} out of range", lambda: EnumRef(it.t.name, lim + r.choice([0, 5]), False)))
         if it.t.kind == "str" and it.length is not None:
             cur = kw[it.name]
             if isinstance(it.length, int):
@@ -448,6 +452,10 @@ class ValueGen:
             i = r.randrange(len(cur))
             lim = INT_MAX[it.t.base] + 1
             S.append((cur, i, f"{p}[{i}]: {it.t.base} out of range", lambda: lim + r.choice([0, 5])))
+        if it.t.kind == "enum" and cur:
+            i = r.randrange(len(cur))
+            lim = INT_MAX[it.t.base] + 1
+            S.append((cur, i, f"{p}[{i}]: enum {it.t.base} out of range", lambda: EnumRef(it.t.name, lim + r.choice([0, 5]), False)))
 
 
 def random_bytes(rng, valid_serialisations, cap_prefixes: int = 40) -> list:
